@@ -16,14 +16,14 @@ import (
 
 // Pkg describes one generated corpus package (schema x code-generation configuration).
 type Pkg struct {
-	Name, SchemaName, Config                  string
+	Name, SchemaName, Config                   string
 	Compressed, Wrapper, OpState, IgnoreShadow bool
-	NewRoot                                   func() ygot.GoStruct
-	RootType, BinaryType                      reflect.Type
-	SchemaFn                                  func() (*ytypes.Schema, error)
-	Unmarshal                                 func([]byte, ygot.GoStruct, ...ytypes.UnmarshalOpt) error
-	EnumMap                                   map[string]map[int64]ygot.EnumDefinition
-	EnumTypesFn                               func() map[string][]reflect.Type
+	NewRoot                                    func() ygot.GoStruct
+	RootType, BinaryType                       reflect.Type
+	SchemaFn                                   func() (*ytypes.Schema, error)
+	Unmarshal                                  func([]byte, ygot.GoStruct, ...ytypes.UnmarshalOpt) error
+	EnumMap                                    map[string]map[int64]ygot.EnumDefinition
+	EnumTypesFn                                func() map[string][]reflect.Type
 
 	once      sync.Once
 	schema    *ytypes.Schema
@@ -124,4 +124,18 @@ func PropIDs() []string {
 	}
 	sort.Strings(out)
 	return out
+}
+
+// BaseSchema names the YANG module family of the package: the revised copy of vt (schema "vtrev",
+// package vtrs) behaves like vt wherever a check chooses options by schema.
+func (p *Pkg) BaseSchema() string {
+	if p.SchemaName == "vtrev" {
+		return "vt"
+	}
+	return p.SchemaName
+}
+
+// PackagesWithRev: the regular corpus packages plus the revised-vt package.
+func PackagesWithRev() []*Pkg {
+	return append(append([]*Pkg{}, Packages()...), AuxPackages("vtrev")...)
 }
